@@ -26,11 +26,17 @@ def huge(op, tr, elem, tier="quick"):
       dims=dict(arg="full usize range (symbolic)", op=op, elem=elem, traits=tr, alloc_stubs=True, shape_symbolic=True), role="c18_huge_%s" % op.lower())
 
 
-def heapseq(tr, elem, capv, tier="quick"):
-    name = "c18_heapseq__%s_%s__c%d" % (tr, elem, capv)
-    call = "c10::heap_seq_h::<%s, %s>(%s)" % (TR[tr], elem, P(capv, "s%d" % capv, "s%d" % (capv + 1)))
-    H(name, call, ["C18", "C10"], tier=tier, unwind=unwind_for(elem, capv + 5), stubs=ALLOC_STUBS,
-      dims=dict(cap=capv, steps=2, ops="reserve|reserve_exact|shrink_to_fit|shrink_to|push (symbolic choice per step)", elem=elem, traits=tr, alloc_stubs=True, shape_symbolic=True), role="c18_heapseq")
+OPN = {0: "reserve", 1: "reserve_exact", 2: "shrink_to_fit", 3: "shrink_to", 4: "push", 5: "pop"}
+
+
+def heapseq(tr, elem, capv, ln, ops, tier="quick"):
+    """ops: list of (op code, arg) - concrete (allocation sizes must be constants for CBMC)"""
+    st = list(ops) + [(2, 0)] * (3 - len(ops))
+    tag = "_".join("%s%d" % (OPN[o][:2] + OPN[o][-2:], n) for o, n in ops)
+    name = "c18_heapseq__%s_%s__c%d_l%d__%s" % (tr, elem, capv, ln, tag)
+    call = "c10::heap_seq_h::<%s, %s>(%s, [%s], %d)" % (TR[tr], elem, P(capv, ln, 0), ", ".join("(%d, %d)" % x for x in st), len(ops))
+    H(name, call, ["C18", "C10"], tier=tier, unwind=unwind_for(elem, capv + 6), stubs=ALLOC_STUBS,
+      dims=dict(cap=capv, len=ln, ops=[[OPN[o], n] for o, n in ops], elem=elem, traits=tr, alloc_stubs=True, shape_symbolic=False, payloads_symbolic=True), role="c18_heapseq")
 
 
 def rawparts(after, twice, tr, elem, capv=2, tier="quick"):
@@ -57,8 +63,10 @@ def define():
         huge(op, "none", "H2" if op != "Reserve" else "W8")
     huge("WithCapacity", "none", "B1", tier="rot2")
     huge("WithCapacity", "none", "Z0", tier="rot2")
-    heapseq("none", "B3D", 1)
-    heapseq("none", "H2", 0, tier="rot2")
+    heapseq("none", "B3D", 1, 1, [(4, 0), (2, 0), (5, 0)])
+    heapseq("none", "B3D", 2, 1, [(0, 3), (3, 2), (2, 0)])
+    heapseq("none", "H2", 0, 0, [(1, 2), (4, 0), (3, 0)], tier="rot2")
+    heapseq("none", "B3D", 1, 1, [(5, 0), (2, 0), (4, 0)], tier="rot2")
     # C17
     rawparts("Nothing", False, "none", "B3D")
     rawparts("Push", False, "none", "W8D")
@@ -67,7 +75,8 @@ def define():
     rawparts("Clear", False, "call", "B3D", capv=1)
     rawparts("Nothing", True, "none", "Z0D")
     rawparts("Push", False, "none", "B3D", capv=0)
-    H("c17_rawparts_clone__clone_B3D", "c10::rawparts_clone::<dyn Cloneable, B3D>(%s)" % P(2, "s2", 0), ["C17"], unwind=unwind_for("B3D", 4), dims=dict(cap=2, elem="B3D", traits="clone", shape_symbolic=True), role="c17_rawparts_clone")
+    for ln in (2, 0):
+        H("c17_rawparts_clone__clone_B3D__l%d" % ln, "c10::rawparts_clone::<dyn Cloneable, B3D>(%s)" % P(2, ln, 0), ["C17"], unwind=unwind_for("B3D", 4), dims=dict(cap=2, len=ln, elem="B3D", traits="clone", shape_symbolic=False, payloads_symbolic=True), role="c17_rawparts_clone")
     for tr, elem in (("none", "W8D"), ("clone", "B3D"), ("call", "Z0D")):
         H("c17_rawparts_empty__%s_%s" % (tr, elem), "c10::rawparts_empty::<%s, %s>()" % (TR[tr], elem), ["C17"], unwind=unwind_for(elem, 3),
           dims=dict(backend="Empty", elem=elem, traits=tr), role="c17_rawparts_empty")
@@ -80,8 +89,9 @@ def define():
                     cap(op, "none", "reloc", elem, capv, tier="thorough")
         for op in ("WithCapacity", "Reserve", "ReserveExact"):
             huge(op, "none", elem, tier="thorough")
-        for capv in (0, 1, 2):
-            heapseq("none", elem, capv, tier="thorough")
+        import itertools
+        for (o1, o2) in itertools.product(range(6), repeat=2):
+            heapseq("none", elem, 1, 1, [(o1, 2), (o2, 1), (2, 0)], tier="thorough" if elem in ("B3D", "Z0D") else "rot64")
     for tr in TR:
         for after in ("Nothing", "Push", "Remove", "Pop", "Clear"):
             rawparts(after, after in ("Remove", "Nothing"), tr, "B3D", capv=2, tier="thorough")
@@ -90,3 +100,17 @@ def define():
         cap("Reserve", "none", "heap", elem, 2, tier="thorough")
         cap("ShrinkTo", "none", "heap", elem, 2, tier="thorough")
         rawparts("Push", False, "none", elem, capv=2, tier="thorough")
+
+
+def _c05_extra():
+    for elem, capv, ln in (("B3D", 2, 2), ("W8D", 1, 1), ("B3D", 0, 0)):
+        H("c05_reloclife__clone_%s__c%d_l%d" % (elem, capv, ln), "c10::reloc_life_h::<dyn Cloneable, %s>(%s)" % (elem, P(capv, ln, 0)), ["C05", "C08"], unwind=unwind_for(elem, capv + 4),
+          dims=dict(cap=capv, len=ln, elem=elem, backend="reloc", traits="clone", shape_symbolic=False, payloads_symbolic=True), role="c05_reloclife")
+
+
+_old_define = define
+
+
+def define():
+    _old_define()
+    _c05_extra()
